@@ -237,6 +237,9 @@ class Exec(ExprMixin, CallMixin):
         if isinstance(target, ast.Name):
             self.ctx.locals[target.id] = SV(v.ty, v.t, None, v.py)
             return
+        if isinstance(target, (ast.Attribute, ast.Subscript)):
+            self.assign(target, SV(v.ty, v.t), stmt)
+            return
         if isinstance(target, (ast.Tuple, ast.List)):
             ty = v.ty
             if isinstance(ty, TUnion):
